@@ -6,6 +6,7 @@ import Mathlib.Data.Rat.Defs
 import Mathlib.Algebra.Order.Field.Rat
 import Mathlib.Data.List.Sort
 import AtsimModel.Lemmas.KernelQ
+import AtsimModel.Gen.Logic
 /-!
 # C18 — tabulated input is reproduced at its data points and is zero outside its range
 
@@ -266,4 +267,5 @@ theorem C18_kernel_plot (lowx highx : Rat) (steps i : Nat) (h : i < steps) :
   simp only [plotXs, List.getElem?_map, List.getElem?_range h, Option.map_some, Option.some.injEq]
   kernel_unfold [k_plot_step, k_plot_v]
   kernel_close
+
 end Atsim.C18
